@@ -238,31 +238,38 @@ def monitor_c18(rng: random.Random, tier: str):
     for n_src in range(0, 13):
         for n_dest in range(1, 9):
             for evenly, max_c in [(True, None), (False, 1), (False, 2), (False, 3), (False, None)]:
-                for _ in range(reps):
+                for rep in range(reps):
                     n += 1
                     oracle = [rng.randint(0, 1000) for _ in range(n_src * (n_dest + 2) + 4)]
                     srcs = list(range(n_src))
                     dests = list(range(100, 100 + n_dest))
+                    # half of the cases with mosaik Entity objects from 1-3 instances of one model (coinciding entity ids)
+                    inst = 0 if rep % 2 == 0 else rng.choice([1, 2, 2, 3])
+                    so, do, ident = sp.util_entities(n_src, n_dest, inst)
+                    key = (lambda o: o) if ident is None else (lambda o: ident[id(o)])
                     w = sp.FakeWorld()
                     saved = mutil.random
                     mutil.random = sp.FakeRandom(oracle)
-                    case = {"n_src": n_src, "n_dest": n_dest, "evenly": evenly, "max_connects": max_c, "oracle": oracle}
+                    case = {"n_src": n_src, "n_dest": n_dest, "evenly": evenly, "max_connects": max_c, "oracle": oracle,
+                            "entities_from_instances": inst}
                     try:
                         kw = {} if max_c is None else {"max_connects": max_c}
                         try:
-                            ret = mutil.connect_randomly(w, list(srcs), list(dests), "a", evenly=evenly, **kw)
+                            ret = mutil.connect_randomly(w, list(so), list(do), "a", evenly=evenly, **kw)
                         except AssertionError:
                             if evenly or max_c is None or n_src <= n_dest * max_c:
                                 vio.append({"law": "must not fail when the destinations have room", **case})
                             continue
                     finally:
                         mutil.random = saved
+                    w.calls = [(key(a), key(b)) for a, b in w.calls]
+                    ret = [key(o) for o in ret]
                     cnt = Counter(d for _, d in w.calls)
                     if sorted(s for s, _ in w.calls) != srcs:
                         vio.append({"law": "every source exactly once", **case, "calls": w.calls})
                     if any(d not in dests for d in cnt):
                         vio.append({"law": "destination not in dest_set", **case})
-                    if set(ret) != set(cnt):
+                    if sorted(ret) != sorted(set(cnt)):
                         vio.append({"law": "returned set = connected destinations", **case, "ret": sorted(ret)})
                     allc = [cnt.get(d, 0) for d in dests]
                     if evenly and max(allc) - min(allc) > 1:
